@@ -29,7 +29,7 @@ Proof. apply F_leb_trans. Qed.
 
 (* the model of std::cmp::max on the states is max2 for this order *)
 Theorem max_is_max2 {X} (a b : scored X) :
-  max_keeps_first NumF (Some (sc_score a)) (Some (sc_score b)) = Some (negb (sleb a b)).
+  max_keeps_first NumF (Some (sc_score a)) (Some (sc_score b)) = negb (sleb a b).
 Proof.
   unfold max_keeps_first, score_cmp, sleb. cbn [nleb NumF].
   destruct (sleb_total a b) as [H|H]; unfold sleb in H; rewrite H.
